@@ -41,7 +41,19 @@ type lexTable struct {
 
 func (p *Prog) evalString(pk *types.Info, e ast.Expr) (string, bool) {
 	tv, ok := pk.Types[e]
-	if !ok || tv.Value == nil || tv.Value.Kind() != constant.String {
+	if !ok || tv.Value == nil {
+		return "", false
+	}
+	if tv.Value.Kind() == constant.Int {
+		// a byte or rune constant ('/'), as given to WriteByte / WriteRune
+		if b, isB := tv.Type.Underlying().(*types.Basic); isB && (b.Kind() == types.Uint8 || b.Kind() == types.Int32 || b.Kind() == types.UntypedRune) {
+			if n, exact := constant.Int64Val(tv.Value); exact && n >= 0 && n < 128 {
+				return string(rune(n)), true
+			}
+		}
+		return "", false
+	}
+	if tv.Value.Kind() != constant.String {
 		return "", false
 	}
 	return constant.StringVal(tv.Value), true
@@ -134,6 +146,12 @@ func extractLexer(p *Prog) (*lexTable, error) {
 								case "Pattern":
 									lr.Pattern, _ = p.evalString(info, val)
 								case "Action":
+									val = resolveLocal(info, pk.Syntax, val)
+									if _, isCall := val.(*ast.CallExpr); !isCall {
+										if id, isId := val.(*ast.Ident); !isId || id.Name != "nil" {
+											lr.Action = "unknown:" + exprString(val)
+										}
+									}
 									if call, ok := val.(*ast.CallExpr); ok {
 										switch calleeName(info, call) {
 										case lexerPkg + ".Push":
@@ -923,4 +941,60 @@ func (b *bnf) charSet(name string, depth int) (set [256]bool, ok bool) {
 		return true
 	}
 	return set, walk(n)
+}
+
+// resolveLocal follows an identifier that is a local variable with exactly one
+// definition (x := e / var x = e) and no other assignment to its initialiser.
+func resolveLocal(info *types.Info, files []*ast.File, e ast.Expr) ast.Expr {
+	for depth := 0; depth < 4; depth++ {
+		id, ok := e.(*ast.Ident)
+		if !ok {
+			return e
+		}
+		obj, _ := info.Uses[id].(*types.Var)
+		if obj == nil || obj.IsField() {
+			return e
+		}
+		var init ast.Expr
+		nAssign := 0
+		for _, f := range files {
+			if obj.Pos() < f.Pos() || obj.Pos() > f.End() {
+				continue
+			}
+			ast.Inspect(f, func(n ast.Node) bool {
+				switch x := n.(type) {
+				case *ast.AssignStmt:
+					for i, l := range x.Lhs {
+						if li, isId := l.(*ast.Ident); isId && (info.Defs[li] == types.Object(obj) || info.Uses[li] == types.Object(obj)) {
+							nAssign++
+							if len(x.Lhs) == len(x.Rhs) {
+								init = x.Rhs[i]
+							}
+						}
+					}
+				case *ast.ValueSpec:
+					for i, n := range x.Names {
+						if info.Defs[n] == types.Object(obj) {
+							nAssign++
+							if len(x.Values) == len(x.Names) {
+								init = x.Values[i]
+							}
+						}
+					}
+				case *ast.UnaryExpr:
+					if x.Op == token.AND {
+						if xi, isId := x.X.(*ast.Ident); isId && info.Uses[xi] == types.Object(obj) {
+							nAssign += 2
+						}
+					}
+				}
+				return true
+			})
+		}
+		if nAssign != 1 || init == nil {
+			return e
+		}
+		e = init
+	}
+	return e
 }
